@@ -327,6 +327,9 @@ func buildForm(r *Rng, m *ISet, form string) (*BM, string) {
 				if hi > lo && r.Chance(0.5) {
 					hi = r.Range(lo, v.Hi)
 				}
+				if hi > lo+3 && r.Chance(0.25) {
+					hi = lo + r.Range(0, 2) // a tiny piece (1-3 values) right before the rest of the interval
+				}
 				k := r.Intn(3)
 				if hi-lo > 64 || (hi > lo && r.Chance(0.5)) {
 					parts[k].AddRange(lo, hi+1)
@@ -347,8 +350,9 @@ func buildForm(r *Rng, m *ISet, form string) (*BM, string) {
 		switch r.Intn(6) {
 		case 4:
 			// in-place unions in a random order (touching pieces of one interval meet as receiver / argument)
+			// (the receiver is the part itself, not a clone: its tables keep the spare capacity left by appends)
 			o := r.Perm(3)
-			b = parts[o[0]].Clone()
+			b = parts[o[0]]
 			b.Or(parts[o[1]])
 			b.Or(parts[o[2]])
 		case 5:
